@@ -201,6 +201,19 @@ def metafile_leaves(t):
     return any(x[0] == "ext" and x[1] in ("pyben.load", "pyben.loads") for x in walk_terms(t))
 
 
+def _cut_unresolved_sanitiser_calls(terms, names):
+    """terms with every unresolved method call `<something>.<name>(...)`, name in names, replaced by a neutral constant."""
+    def cut(t):
+        if isinstance(t, frozenset):
+            return frozenset(cut(x) for x in t)
+        if isinstance(t, tuple):
+            if len(t) >= 2 and t[0] in ("meth", "call", "unkcall", "attrcall") and isinstance(t[1], str) and t[1].split(".")[-1] in names:
+                return ("const", "<unresolved containment call>")
+            return tuple(cut(x) if isinstance(x, (tuple, frozenset)) else x for x in t)
+        return t
+    return cut(terms)
+
+
 def unsanitised(terms, sanitisers):
     """True if a pyben.load-derived value occurs outside every sanitiser call in the term set."""
     def walk(ts):
@@ -277,6 +290,13 @@ def run(ctx):
                 ctx.holds("C19.1", e.fn, "%s: written path does not depend on metafile content" % e.prim, norm(e.site) + " :: " + norm(a), path=where)
                 continue
             tainted_sinks += 1
+            san_names = {q.split(".")[-1].split(":")[-1] for q in sanitisers}
+            if unsanitised(t, set(sanitisers)) and not unsanitised(_cut_unresolved_sanitiser_calls(t, san_names), set(sanitisers)):
+                # the metafile-derived part goes through a method call `x.<name of a verified containment check>(...)` whose
+                # receiver the origin terms could not type (an object handed around, built by a factory)
+                ctx.undecided("C19.1", e.fn, "%s: the written path goes through a call `.%s(...)` on an object whose class was not resolved; a verified containment check of that name exists - "
+                              "whether this call is it was not decided" % (e.prim, sorted(san_names)[0]), norm(e.site) + " :: " + norm(a), path=where)
+                continue
             if unsanitised(t, set(sanitisers)):
                 extra = ""
                 if rejected:
